@@ -88,11 +88,16 @@ def l2blk (w : W) (num : String) (toks : List String) : W × String :=
 def step (w : W) (ws : List String) : W × String :=
   match ws with
   | "claimdata" :: fs => (w, claimData fs)
-  | ["new", retry, start, maxSize, _hist, omitPrev] =>
+  | "new" :: retry :: start :: maxSize :: _hist :: omitPrev :: rest =>
     match Driver.parseBool retry, start.toNat?, maxSize.toNat?, Driver.parseBool omitPrev with
     | some r, some st, some ms, some op =>
-      ({ s := { cfg := { retry := r, start := st, maxSize := ms, omitPrev := op } } }, "ok")
+      ({ s := { cfg := { retry := r, start := st, maxSize := ms, omitPrev := op, fep := rest = ["1"] } } }, "ok")
     | _, _, _, _ => (w, "bad-op")
+  | ["prover", "fail"] => ({ w with s := Aggkit.Aggsender.step sizeFloat w.s (.prover .fail) }, "ok")
+  | ["prover", "notyet"] => ({ w with s := Aggkit.Aggsender.step sizeFloat w.s (.prover .notYet) }, "ok")
+  | ["prover", "cut", k] => match k.toNat? with
+    | some k => ({ w with s := Aggkit.Aggsender.step sizeFloat w.s (.prover (.ok k)) }, "ok")
+    | none => (w, "bad-op")
   | ["l1blk", _, _] => (w, "ok")
   | ["fin", _] => (w, "ok")
   | "l2blk!" :: num :: toks => l2blk w num toks     -- the faulted first attempt leaves nothing behind; the retry is the block
